@@ -487,7 +487,12 @@ fn run_in(case: &C06Case, exec: &mut Exec) -> Result<CaseInfo, Fail> {
         actx = id_str(a),
         last = in_a.first().map(|w| w.id.clone()).unwrap_or(id_str(1)),
     );
-    let hscript = format!("{{run: {{|frame|\n      if $frame.topic != \"look\" {{ return }}\n      {report}\n    }}}}");
+    // the handler also appends explicitly, once naming the OTHER context: its output lands in
+    // its own context whatever the script asks for
+    let hscript = format!(
+        "{{run: {{|frame|\n      if $frame.topic != \"look\" {{ return }}\n      \"x\" | .append \"spy.leak\" --context \"{}\"\n      \"y\" | .append \"spy.plain\"\n      {report}\n    }}}}",
+        id_str(a)
+    );
     let cscript = format!("{{run: {{|frame|\n      {report}\n    }}}}");
     let hreg = must("register spy", exec.append(&spec("spy.register", b, None), Some(hscript.as_bytes())))?;
     // the byte-identical script is first defined in A as well: a definition (or anything
@@ -583,6 +588,35 @@ fn run_in(case: &C06Case, exec: &mut Exec) -> Result<CaseInfo, Fail> {
                 "`.head only-in-a --context A` inside a {who} script returned {}, expected {} (a script may name another context explicitly)",
                 v["named"], only_a.id
             )));
+        }
+    }
+
+    // everything the handler produced (stamped with its id) lives in its own context B
+    let everything = must("read_sync", exec.read_sync(None, None, None))?;
+    let produced: Vec<&WFrame> = everything
+        .iter()
+        .filter(|w| w.meta_str("handler_id").as_deref() == Some(&hreg.id) && w.meta_str("frame_id").as_deref() == Some(&look.id))
+        .collect();
+    checks += 1;
+    for want in ["spy.leak", "spy.plain", "spy.out"] {
+        match produced.iter().find(|w| w.topic == want) {
+            None => {
+                return Err(iso(format!(
+                    "the handler registered in context {} produced {:?} for its trigger; its `{want}` frame is missing",
+                    id_str(b),
+                    produced.iter().map(|w| (&w.topic, &w.ctx)).collect::<Vec<_>>()
+                )))
+            }
+            Some(w) if w.ctx128() != b => {
+                return Err(iso(format!(
+                    "frame {} ({want}) produced by a handler registered in context {} landed in context {} (the script's `.append --context` named {})",
+                    w.id,
+                    id_str(b),
+                    w.ctx,
+                    id_str(a)
+                )))
+            }
+            _ => {}
         }
     }
 
